@@ -242,7 +242,14 @@ func (e *Env) evalRow(x *SExpr) (row, off, isnil string, ok bool) {
 func (e *Env) evalLoc(x *SExpr) *Loc {
 	switch x.Kind {
 	case SSel:
-		// package qualified? no locations there
+		// a field of an embedded struct: s.wl.wlist
+		if x.X.Kind == SSel || x.X.Kind == SIndex {
+			if pl := e.evalLoc(x.X); pl != nil && isStruct(pl.T) {
+				if i, ok := structField(pl.T, x.Name); ok {
+					return pl.sub(i)
+				}
+			}
+		}
 		base := e.eval(x.X)
 		if base.Comp {
 			return nil
@@ -580,6 +587,15 @@ func (e *Env) call(x *SExpr) Val {
 				return boolVal("true")
 			}
 			return boolVal(app(">", t, e.a.alloc(e.old)))
+		case "grown":
+			// the slice still uses the backing array it had on entry, or one allocated since
+			v := e.eval(x.Args[0])
+			n := e.shifted(&SExpr{Kind: SOld, Name: "old"})
+			if n == nil {
+				return boolVal("true")
+			}
+			ov := n.eval(x.Args[0])
+			return boolVal(or(app("=", sArr(v.Term), sArr(ov.Term)), app(">", sArr(v.Term), e.a.alloc(e.old))))
 		case "allocated":
 			v := e.eval(x.Args[0])
 			t := v.Term
